@@ -1,4 +1,6 @@
 """C02 - sifting commutes with rescaling, sign flip and time reversal (product programs)."""
+import copy
+
 import numpy as np
 
 import emd
@@ -16,7 +18,7 @@ BOUNDS = {
              '{2, -1, 1/2, -4, 3, -1/3 (double), 1.4 (double)} and a symbolic non-zero factor (fixed stop); time reversal; get_next_imf and sift with '
              'stop in {fixed(1), fixed(2), sd(0.1), rilling}, step {1, 1/2}, pad width {1,2,3}, interpolation {splrep exact, pchip exact}; sift and mask_sift are '
              'run with sift_thresh=0 (the absolute threshold is scale dependent by design; the property quantifies over order-one signals); '
-             'mask_sift with ratio_sig / ratio_imf amplitudes, explicit mask frequencies and zero-crossing frequency, 1 phase',
+             'mask_sift with ratio_sig / ratio_imf amplitudes (one ratio for all IMFs, or one per IMF), explicit mask frequencies and zero-crossing frequency, 1 phase',
     'thorough': 'N <= 7, all scale factors +-2^k for |k| <= 8 on the fixed(1) configuration, more stop/step/pad/interpolation combinations, masks with 2 phases',
 }
 OUTSIDE = 'negative factors for masked sifts: with an odd number of mask phases the mask set {cos(wt+p)} is not symmetric under a sign flip, so the law cannot hold for any implementation, and with an even number it holds only up to the rounding of the double-precision cosine table (cos(a+pi) != -cos(a) bit for bit), which the exact encoding exposes as tie-breaking differences; float rounding (equalities are exact over the reals; the bit-for-bit clause for powers of two is not decided), longer signals, ' \
@@ -37,7 +39,11 @@ def configs(tier):
     def cfg(fn, tr, stop='fixed1', step='1', interp='splrep', w=2, n=6, **kw):
         d = {'fn': fn, 'tr': tr, 'stop': stop, 'step': step, 'interp': interp, 'w': w, 'N': n}
         d.update(kw)
-        return ('%s-N%d-%s-%s-step%s-%s-w%d' % (fn, n, tr, stop, step, interp, w), d)
+        label = '%s-N%d-%s-%s-step%s-%s-w%d' % (fn, n, tr, stop, step, interp, w)
+        if fn == 'mask':
+            label += '-%s-%s-%dph%s' % (kw.get('mode'), 'zc' if kw.get('freqs') == 'zc' else 'list', kw.get('nphases', 1),
+                                        '-amp-per-imf' if 'amp' in kw else '')
+        return (label, d)
     if q:
         out += [cfg('gni', 'x-1'), cfg('gni', 'x2', stop='fixed2', step='1/2', w=1), cfg('gni', 'x-1', stop='rilling'), cfg('gni', 'x1.4', w=3),
                 cfg('gni', 'rev', stop='fixed2'), cfg('gni', 'rev', stop='rilling', w=3), cfg('gni', 'xsym'), cfg('gni', 'rev', n=7),
@@ -45,7 +51,9 @@ def configs(tier):
                 cfg('gni', 'rev', stop='sd0.1', _budget_s=15),
                 cfg('sift', 'x-4', stop='fixed2'), cfg('sift', 'rev', w=1), cfg('sift', 'x2', stop='rilling', step='1/2', _budget_s=25),
                 cfg('mask', 'x2', mode='ratio_sig', freqs=[0.3, 0.125], _budget_s=25), cfg('mask', 'x1/2', mode='ratio_imf', freqs=[0.3, 0.125], _budget_s=30),
-                cfg('mask', 'x3', mode='ratio_sig', freqs='zc', _budget_s=25)]
+                cfg('mask', 'x3', mode='ratio_sig', freqs='zc', _budget_s=25),
+                cfg('mask', 'x2', mode='ratio_sig', freqs=[0.3, 0.125], amp=[0.5, 0.25], _budget_s=25),
+                cfg('mask', 'x1/2', mode='ratio_imf', freqs=[0.3, 0.125], amp=[0.5, 0.25], _budget_s=30)]
     else:
         for k in range(-8, 9):
             for sgn in ('', '-'):
@@ -68,6 +76,8 @@ def configs(tier):
                 out.append(cfg('mask', tr, mode=mode, freqs=[0.3, 0.125]))
             out.append(cfg('mask', 'x2', mode=mode, freqs='zc', nphases=2))
             out.append(cfg('mask', 'x1/2', mode=mode, freqs=[0.3, 0.125], nphases=2))
+            out.append(cfg('mask', 'x3', mode=mode, freqs=[0.3, 0.125], amp=[0.5, 0.25]))
+            out.append(cfg('mask', 'x1/4', mode=mode, freqs=[0.3, 0.125], amp=(0.75, 0.5)))
         # the tier budget is strict: run the configurations that witness the required classes first
         out.sort(key=lambda c: 0 if c[1]['fn'] != 'gni' else 1)
         for c in out:
@@ -125,7 +135,7 @@ def harness(h):
                 return ('ok',) + tuple(S.get_next_imf(Z, **kw, **imf_opts))
             if fn == 'sift':
                 return ('ok', S.sift(Z, sift_thresh=THRESH(h), imf_opts=imf_opts, **kw))
-            return ('ok', S.mask_sift(Z, mask_amp=0.5, mask_amp_mode=p['mode'], mask_freqs=p['freqs'], max_imfs=2, sift_thresh=THRESH(h),
+            return ('ok', S.mask_sift(Z, mask_amp=copy.deepcopy(p.get('amp', 0.5)), mask_amp_mode=p['mode'], mask_freqs=p['freqs'], max_imfs=2, sift_thresh=THRESH(h),
                                       nphases=p.get('nphases', 1), imf_opts=imf_opts, **kw))
         except EMDSiftCovergeError:
             return ('convergence-error',)
